@@ -373,12 +373,14 @@ McTriples == {[q |-> q, lim |-> 0, ob |-> <<>>] : q \in McQueries}
              \cup {[q |-> q, lim |-> 1, ob |-> ob] : q \in McQueries, ob \in McOrders}
 McUsable == {t \in McTriples : /\ Matching(ContentView, t.q) # {}
                                 /\ Determined(ContentView, t.q, t.ob, t.lim)
+                                /\ Determined(ColsView, t.q, t.ob, t.lim)
                                 /\ Selected(ColsView, t.q, t.ob, t.lim) = Selected(ContentView, t.q, t.ob, t.lim)}
 
 \* (TLC neither caches LET definitions nor operator arguments at the action level: every value that is used more
 \* than once is bound by "\E x \in {expression}", which evaluates the expression once)
 ReplaceDo(q, lim, ob, byid, v, q2, S, SS, c, want, e) ==
   /\ Determined(ContentView, q2, ob, lim)
+  /\ Determined(ColsView, q2, ob, lim)              \* ... and the stored columns determine the selection as well
   /\ Selected(ColsView, q2, ob, lim) = S            \* the stored columns select the same documents
   /\ \A id \in S : Len(docs[id]) < MaxRevs
   /\ IF S = {}
@@ -419,6 +421,7 @@ Replace(o) ==
 
 DeleteDo(q, lim, ob, S, SS) ==
   /\ Determined(ContentView, q, ob, lim)
+  /\ Determined(ColsView, q, ob, lim)
   /\ Selected(ColsView, q, ob, lim) = S
   /\ \A id \in S : Len(docs[id]) < MaxRevs
   /\ docs' = [id \in Ids |-> IF id \in S THEN Append(docs[id], DelRev) ELSE docs[id]]
